@@ -533,6 +533,11 @@ impl Stream for Substream {
         loop {
             match this.codec {
                 ProtocolCodec::Identity(payload_size) => {
+                    // The initial read buffer holds 1024 bytes, frames can be larger.
+                    if this.read_buffer.len() < payload_size {
+                        this.read_buffer.resize(payload_size, 0u8);
+                    }
+
                     let mut read_buf =
                         ReadBuf::new(&mut this.read_buffer[this.offset..payload_size]);
 
